@@ -398,6 +398,14 @@ def panel_configs(verif_seed):
     for n, k in ((130, 0), (130, 3), (130, -3), (101, 100), (101, -100), (7, 6), (7, -6)):
         out.append({"recipe": {"k": "generic", "n": n, "dtype": "f8", "seed": g.randrange(1 << 20), "sym": "gen"},
                     "k": k, "rand": g.choice(["normal", "rademacher"]), "max_iters": g.choice([0, 1])})
+    # operators that DECLARE structure (SelfAdjoint / PSD), real symmetric and complex Hermitian, off-diagonals on both sides:
+    # an estimator may exploit the declaration, and must then still estimate the requested (complex) off-diagonal
+    for dt, ann in (("c16", "SelfAdjoint"), ("c16", "PSD"), ("f8", "SelfAdjoint"), ("c8", "PSD")):
+        for rand in ("normal", "rademacher"):
+            n = g.choice([4, 5, 6])
+            out.append({"recipe": {"k": "ann", "name": ann, "of": {"k": "generic", "n": n, "dtype": dt, "seed": g.randrange(1 << 20),
+                                                                   "sym": "psd"}},
+                        "k": g.choice([1, -1, 2, -2]), "rand": rand, "max_iters": 1})
     # probe blocks of more than 2^20 entries (n x 100 with n > 10485), in every precision: exactness with Rademacher probes
     # on a Diagonal operator (no statistics involved), and unbiasedness with normal probes (fewer keys, wider threshold)
     for dt in ("f4", "f8", "c8"):
@@ -558,6 +566,11 @@ PATH_CLASSES = {
         ("eigmax", "alg", {}, True),
         ("inv", "alg", {}, False), ("logdet", "alg", {}, False), ("unary", "alg", {"f": "sqrt"}, False),
         ("eig", "alg", {"k": 1, "which": "LM"}, False), ("svd", "alg", {"k": 1, "which": "LM"}, False)]),
+    # an Auto that carries an iteration cap and a tolerance (options that only SOME of the algorithms it may turn into accept)
+    "AutoCapped": ({"tol": 0.2, "max_iters": 3}, ("trace_auto", "alg", {}), [
+        ("diag_auto", "alg", {"k": 0}, True), ("trace_auto", "alg", {}, True), ("eig_auto1", "alg", {}, True),
+        ("eigmax", "alg", {}, True), ("inv", "alg", {}, False), ("logdet", "alg", {}, False),
+        ("eig", "alg", {"k": 1, "which": "LM"}, False), ("eig", "alg", {"k": 2, "which": "LM"}, False)]),
     "Lanczos": ({"max_iters": 3}, ("eig_lanczos", "alg", {"k": 1, "which": "LM"}), [
         ("eig_lanczos", "alg", {"k": 1, "which": "LM"}, True), ("svd_lanczos", "alg", {"k": 1, "which": "LM"}, True),
         ("alg_call", "alg", {}, True), ("logdet_lh", "lalg", {"hkw": {"tol": 0.5, "max_iters": 1, "key": 2}}, True),
@@ -584,7 +597,7 @@ def path_programs_c17():
     kinds = path_kinds()
     G = {"k": "ann", "name": "PSD", "of": {"k": "generic", "n": 4, "dtype": "f8", "seed": 99, "sym": "psd"}}
     for cname, (kw, r0, entries) in PATH_CLASSES.items():
-        cls = "Hutch" if cname.startswith("Hutch") else cname
+        cls = "Hutch" if cname.startswith("Hutch") else "Auto" if cname.startswith("Auto") else cname
         for fn, argname, extra, randomised in entries:
             for kname, rec in sorted(kinds.items()):
                 if not randomised and kname not in PATH_KINDS_DETERMINISTIC:
@@ -610,6 +623,26 @@ def path_programs_c17():
 
 
 
+def huge_programs_c17():
+    """Thorough tier only: Krylov bases of more than 2^25 entries (n = 2^21, 16 iterations; ~0.6 GB, ~10 s per call) -- sizes
+    at which an implementation may switch to another back-end."""
+    out = []
+    n = 2**21
+    T = {"k": "tridiag", "n": n, "dtype": "f8", "seed": 3, "symm": False}
+    S = {"k": "ann", "name": "SelfAdjoint", "of": {"k": "tridiag", "n": n, "dtype": "f8", "seed": 4, "symm": True}}
+    for name, rec, fn, kw in [("eig_arnoldi_n2p21", T, "eig_arnoldi", {"k": 2, "which": "LM", "max_iters": 16, "key": 11}),
+                              ("eig_arnoldi_default_key_n2p21", T, "eig_arnoldi", {"k": 2, "which": "LM", "max_iters": 16}),
+                              ("eig_lanczos_n2p21", S, "eig_lanczos", {"k": 2, "which": "LM", "max_iters": 16, "key": 5})]:
+        c = {"op": "call", "fn": fn, "args": dict({"A": {"slot": "A0"}}, **kw)}
+        steps = [{"op": "make", "slot": "A0", "recipe": rec}, dict(c), {"op": "user", "act": ["draw", "randn", 2], "slot": "s0"},
+                 dict(c, repeat_of=1)]
+        for j, st in enumerate(steps):
+            st["id"] = j
+        out.append({"name": "huge/" + name, "program": {"property": "C17", "run_seed": 0, "rng0": 9, "config": {"large": "huge/" + name},
+                                                        "mode": "explicit", "steps": steps}})
+    return out
+
+
 def abort_programs_c17():
     """A call that is aborted inside the user's operator (its k-th product raises), then the same call again with the SAME
     caller-owned algorithm object: algorithm class x entry point x structure with user operators as parts x position of the
@@ -629,7 +662,7 @@ def abort_programs_c17():
         "product_probes": {"k": "ann", "name": "PSD", "of": {"k": "product", "args": [pr(69, 0, 4), pr(69, 0, 4)]}},
     }
     for cname, (kw, r0, entries) in PATH_CLASSES.items():
-        cls = "Hutch" if cname.startswith("Hutch") else cname
+        cls = "Hutch" if cname.startswith("Hutch") else "Auto" if cname.startswith("Auto") else cname
         for fn, argname, extra, randomised in entries:
             if not randomised:
                 continue
